@@ -1023,8 +1023,8 @@ impl Prop for C16 {
     }
     fn work(&self, tier: Tier) -> Work {
         match tier {
-            Tier::Quick => Work { cases_per_worker: 750, workers: 8 },
-            Tier::Thorough => Work { cases_per_worker: 20_000, workers: 16 },
+            Tier::Quick => Work { cases_per_worker: 3750, workers: 8 },
+            Tier::Thorough => Work { cases_per_worker: 80000, workers: 16 },
         }
     }
     fn strategy(&self, _tier: Tier) -> BoxedStrategy<Sc16> {
